@@ -5,7 +5,10 @@ C08 — waits and timeouts fire at the right instant, never early.
 Proofs/Lemmas/Timestamp.lean and re-exported here.)
 -/
 import AslModel.Timers
+import AslModel.Lite
 import Proofs.Lemmas.Timestamp
+import Proofs.Lemmas.Log
+import Proofs.Lemmas.FuelMono
 namespace Asl.C08
 open Asl
 
@@ -115,9 +118,275 @@ theorem fires_not_early (s : TimerSt) (t : Int) (p : Nat × Int)
   · exact absurd h hold
   · exact ⟨x, hx, rfl, by simp; omega⟩
 
+/-! ### the timed reference semantics (`St.clock`, `St.times`: milliseconds since the start event)
+
+Handling an event takes no time; time passes while a worker works, a Wait state waits, a Retrier's interval
+runs, a Task's `TimeoutSeconds` runs out; the branches of a fan-out all start at the fan-out's instant. -/
+
+/-- no time passes backwards -/
+theorem rmax_of_le {a b : Rat} (h : a ≤ b) : rmax a b = b := by simp [rmax, h]
+
+theorem add_nonneg_ge (c x : Rat) (h : 0 ≤ x) : c ≤ c + x := by
+  have := (Rat.add_le_add_left (c := c)).mpr h
+  simpa [Rat.add_zero] using this
+
+/-- (i) for every machine, input, oracle and fuel, from every state of every scope: the clock never goes
+back, and every event a run files is stamped with an instant that is not before the clock it started
+from (one instant per event: the `times` grow in step with the `log`) -/
+theorem clock_monotone (env : Env) (fuel : Nat) (states : Json) (name : Str) (data ctx : Json) (r : Nat) (st : St) :
+    st.clock ≤ (runFrom env fuel states name data ctx r st).2.clock ∧
+    ∃ evs ts, (runFrom env fuel states name data ctx r st).2.log = evs ++ st.log ∧
+      (runFrom env fuel states name data ctx r st).2.times = ts ++ st.times ∧ ts.length = evs.length ∧
+      ∀ t ∈ ts, st.clock ≤ t := by
+  obtain ⟨evs, ts, hl, _, _, _, hm, hn, hg, hc⟩ := (growsAll env fuel).runFrom states name data ctx r st
+  exact ⟨hc, evs, ts, hl, hm, hn, hg⟩
+
+/-- … the same for the branches of a Parallel state and the iterations of a Map state taken together -/
+theorem clock_monotone_fanout (env : Env) (fuel : Nat) (bs : List Json) (params ctx : Json) (st : St)
+    (proc : Json) (sel : Option Json) (input : Json) (items : List Json) (i mc : Nat) (be : Rat) :
+    st.clock ≤ (runBranches env fuel bs params ctx st).2.clock ∧
+    st.clock ≤ (runItems env fuel proc sel input items i mc be ctx st).2.clock :=
+  ⟨((growsAll env fuel).runBranches bs params ctx st).clock_le,
+   ((growsAll env fuel).runItems proc sel input items i mc be ctx st).clock_le⟩
+
+/-- … and of the whole predicted history: every event has its instant, none is negative, and the
+instant the run ended is not before the start -/
+theorem history_instants (env : Env) (fuel : Nat) (asl input ctx : Json) :
+    (run env fuel asl input ctx).times.length = (run env fuel asl input ctx).history.length ∧
+    (∀ t ∈ (run env fuel asl input ctx).times, 0 ≤ t) ∧ 0 ≤ (run env fuel asl input ctx).endTime := by
+  have G : Grows {} (runCore env fuel asl input ctx).2 := by
+    unfold runCore
+    split
+    · exact (growsAll env fuel).runFrom _ _ _ _ _ _
+    · exact Grows.refl _
+  obtain ⟨evs, ts, hl, _, _, _, hm, hn, hg, hc⟩ := G
+  have hl' : (runCore env fuel asl input ctx).2.log = evs := by simpa using hl
+  have hm' : (runCore env fuel asl input ctx).2.times = ts := by simpa using hm
+  have hc' : (0 : Rat) ≤ (runCore env fuel asl input ctx).2.clock := hc
+  have hg' : ∀ t ∈ ts, (0 : Rat) ≤ t := hg
+  refine ⟨?_, ?_, hc'⟩
+  · simp only [run, Outcome.ofRun, timesOf, historyOf, hl', hm', List.length_cons, List.length_append,
+      List.length_reverse, hn]
+    cases terminalOf (runCore env fuel asl input ctx).1 <;> simp
+  · intro t ht
+    simp only [run, Outcome.ofRun, timesOf, hm', List.mem_cons, List.mem_append, List.mem_reverse] at ht
+    rcases ht with h | h | h
+    · rw [h]; exact Rat.le_refl
+    · exact hg' t h
+    · cases hT : terminalOf (runCore env fuel asl input ctx).1 with
+      | none => simp [hT] at h
+      | some x => simp [hT] at h; rw [h]; exact hc'
+
+/-- (ii) a Wait state is over at its target instant — `Seconds` / `SecondsPath` after it was entered, or the
+`Timestamp` / `TimestampPath` instant — and never before it: it goes on (OutputPath, then Next / End) at
+max(target, the instant it was entered) -/
+theorem wait_state_not_early (env : Env) (fuel : Nat) (states : Json) (name : Str) (state data ctx input out : Json)
+    (target : Rat) (retries : Nat) (st : St)
+    (h : stateType state = S "Wait")
+    (hi : applyPath data ctx (pathArg state "InputPath") = .ok input)
+    (ht : waitTarget env state input ctx st.clock = .ok target)
+    (ho : applyPath input ctx (pathArg state "OutputPath") = .ok out) :
+    runState env (fuel + 1) states name state data ctx retries st =
+      leave env fuel states name state data out ctx retries (st.waitUntil target) ∧
+    (st.waitUntil target).clock = rmax st.clock target ∧
+    target ≤ (st.waitUntil target).clock ∧ st.clock ≤ (st.waitUntil target).clock := by
+  have h1 : (S "Wait" = S "Pass") = False := by decide
+  have h2 : (S "Wait" = S "Succeed") = False := by decide
+  have h3 : (S "Wait" = S "Fail") = False := by decide
+  exact ⟨by simp [runState, h, h1, h2, h3, hi, ht, ho], rfl, le_rmax_right _ _, le_rmax_left _ _⟩
+
+/-- … so the `WaitStateExited` event of a Wait state that ends its scope carries exactly that instant -/
+theorem wait_exit_instant (env : Env) (fuel : Nat) (states : Json) (name : Str) (state data ctx input out : Json)
+    (target : Rat) (retries : Nat) (st : St)
+    (h : stateType state = S "Wait")
+    (hi : applyPath data ctx (pathArg state "InputPath") = .ok input)
+    (ht : waitTarget env state input ctx st.clock = .ok target)
+    (ho : applyPath input ctx (pathArg state "OutputPath") = .ok out)
+    (hE : isTrue (fld state "End") = true) (hL : (render out).length ≤ env.maxData) :
+    (runState env (fuel + 2) states name state data ctx retries st).2.log = .exited (S "Wait") name out :: st.log ∧
+    (runState env (fuel + 2) states name state data ctx retries st).2.times = rmax st.clock target :: st.times := by
+  have hw := (wait_state_not_early env (fuel + 1) states name state data ctx input out target retries st h hi ht ho).1
+  have : ¬ (render out).length > env.maxData := by omega
+  rw [hw]
+  simp [leave, hE, this, St.exit, St.waitUntil, h]
+
+/-- `Seconds: n` on a Wait state entered at `t`: the target is `t + 1000 n` ms -/
+theorem wait_seconds_target (env : Env) (state input ctx : Json) (entered : Rat) (n : Int)
+    (hs : fld state "Seconds" = some (.num n)) (hn : n ≠ 0) :
+    waitTarget env state input ctx entered = .ok (entered + (n : Rat) * 1000) := by
+  have : isTrue (fld state "Seconds") = true := by simp [hs, isTrue, Json.truthy, hn]
+  rw [hs] at this
+  unfold waitTarget
+  simp only [hs, this, if_true, Option.getD_some]
+
+/-- (iii) a Task with `TimeoutSeconds: n` whose worker does not answer strictly before the deadline — `n`
+seconds after the instant this attempt was entered — fails with `States.Timeout` (handed to its Retry / Catch
+like any error), and `LambdaFunctionTimedOut` is filed at the deadline exactly: `n` seconds after the request -/
+theorem task_timeout_exact (env : Env) (fuel : Nat) (states : Json) (name fn : Str)
+    (state data ctx input params : Json) (retries : Nat) (st : St) (n : Int)
+    (h : stateType state = S "Task")
+    (hr : rpcFunction ((fldStr state "Resource").getD []) = some fn)
+    (hi : applyPath data ctx (pathArg state "InputPath") = .ok input)
+    (hp : tmplOpt env input ctx (fld state "Parameters") = .ok params)
+    (hT : fld state "TimeoutSeconds" = some (.num n)) (hn : 0 ≤ (n : Rat) * 1000)
+    (hlate : ∀ d, env.delay fn params (bump st.counts (fn, params)).1 = some d →
+      ¬ st.clock + d < st.clock + (n : Rat) * 1000) :
+    runState env (fuel + 1) states name state data ctx retries st =
+      handleErr env fuel states name state data ctx retries (S "States.Timeout") (S "m")
+        (st.taskCall (bump st.counts (fn, params)).2 ((fldStr state "Resource").getD []) params .lambdaTimedOut
+          (st.clock + (n : Rat) * 1000)) ∧
+    (st.taskCall (bump st.counts (fn, params)).2 ((fldStr state "Resource").getD []) params .lambdaTimedOut
+        (st.clock + (n : Rat) * 1000)).times = (st.clock + (n : Rat) * 1000) :: st.clock :: st.times ∧
+    (st.taskCall (bump st.counts (fn, params)).2 ((fldStr state "Resource").getD []) params .lambdaTimedOut
+        (st.clock + (n : Rat) * 1000)).clock = st.clock + (n : Rat) * 1000 := by
+  have h1 : (S "Task" = S "Pass") = False := by decide
+  have h2 : (S "Task" = S "Succeed") = False := by decide
+  have h3 : (S "Task" = S "Fail") = False := by decide
+  have h4 : (S "Task" = S "Wait") = False := by decide
+  have h5 : (S "Task" = S "Choice") = False := by decide
+  have hd : taskDeadline state st.clock = some (st.clock + (n : Rat) * 1000) := by simp [taskDeadline, hT]
+  have ha : taskArrival (env.delay fn params (bump st.counts (fn, params)).1) (taskDeadline state st.clock) st.clock
+      = some (st.clock + (n : Rat) * 1000, true) := by
+    rw [hd]
+    cases hdl : env.delay fn params (bump st.counts (fn, params)).1 with
+    | none => simp [taskArrival]
+    | some d => simp [taskArrival, hlate d hdl]
+  have hm : rmax st.clock (st.clock + (n : Rat) * 1000) = st.clock + (n : Rat) * 1000 :=
+    rmax_of_le (add_nonneg_ge _ _ hn)
+  refine ⟨by simp [runState, h, h1, h2, h3, h4, h5, hr, hi, hp, ha, taskOutcome, taskEv], ?_, ?_⟩
+  · simp [St.taskCall, St.push, St.waitUntil, hm]
+  · simp [St.taskCall, St.push, St.waitUntil, hm]
+
+/-- … and a worker that answers strictly before the deadline (after `d` ms) is heard at `d` ms after the request -/
+theorem task_reply_instant (delay deadline : Rat) (now : Rat) (h : now + delay < deadline) :
+    taskArrival (some delay) (some deadline) now = some (now + delay, false) ∧
+    taskArrival (some delay) none now = some (now + delay, false) := by
+  simp [taskArrival, h]
+
+/-- (iv) a retried state is re-run exactly the Retrier's delay — `IntervalSeconds × BackoffRate^k` for the k-th
+retry (C07.kth_retry_delay) — after the failure -/
+theorem retry_delay_exact (env : Env) (fuel : Nat) (states : Json) (name : Str) (state data ctx : Json)
+    (retries : Nat) (e msg : Str) (st : St) (d : Rat) (k : Nat)
+    (h : decideError ((listOf (fld state "Retry")).map retrierOf) ((listOf (fld state "Catch")).map catcherOf) e retries = .retry d k)
+    (hd : 0 ≤ d * 1000) :
+    handleErr env (fuel + 1) states name state data ctx retries e msg st =
+      runFrom env fuel states name data ctx k (st.after d) ∧
+    (st.after d).clock = st.clock + d * 1000 ∧ (st.after d).log = st.log := by
+  refine ⟨by simp [handleErr, h], ?_, rfl⟩
+  simp [St.after, St.waitUntil, rmax_of_le (add_nonneg_ge _ _ hd)]
+
+/-- (v) the join of a fan-out all of whose branches succeed is at the latest instant a branch ended: one more
+branch in front moves it to the max of that branch's end and the join of the others (which all start at the
+instant the fan-out is at) -/
+theorem join_time_is_max (env : Env) (fuel : Nat) (b : Json) (bs : List Json) (params ctx : Json) (st s1 s2 : St)
+    (start : Str) (states v : Json) (vs : List Json)
+    (hs : fldStr b "StartAt" = some start) (hst : fld b "States" = some states)
+    (hr : runFrom env fuel states start params ctx 0 st = (.done v, s1))
+    (hrest : runBranches env fuel bs params ctx (s1.at st.clock) = (.ok vs, s2)) :
+    runBranches env (fuel + 1) (b :: bs) params ctx st = (.ok (v :: vs), s2.at (rmax s1.clock s2.clock)) ∧
+    s1.clock ≤ rmax s1.clock s2.clock ∧ s2.clock ≤ rmax s1.clock s2.clock ∧ st.clock ≤ s1.clock := by
+  refine ⟨by simp [runBranches, hs, hst, hr, hrest, fanCombine], le_rmax_left _ _, le_rmax_right _ _, ?_⟩
+  have := ((growsAll env fuel).runFrom states start params ctx 0 st).clock_le
+  rw [hr] at this
+  exact this
+
+/-- … no branches: the join is at once -/
+theorem join_time_no_branches (env : Env) (fuel : Nat) (params ctx : Json) (st : St) :
+    runBranches env (fuel + 1) [] params ctx st = (.ok [], st) := by simp [runBranches]
+
+/-- … and a fan-out one of whose branches fails, fails at the instant of the earliest failure, with that
+branch's error: this branch failed at `t1`, the others at a later instant -/
+theorem earliest_failure_wins (e e' : Str) (c c' : Option Json) (f f' : Bool) (t1 : Rat) (st2 : St) (tOk : Rat) :
+    (t1 < st2.clock → fanCombine (.failed e c f) t1 (.error (.failed e' c' f')) st2 tOk =
+      (.error (.failed e c f), { st2 with multiFail := true, clock := t1 })) ∧
+    (st2.clock < t1 → fanCombine (.failed e c f) t1 (.error (.failed e' c' f')) st2 tOk =
+      (.error (.failed e' c' f'), { st2 with multiFail := true })) := by
+  constructor
+  · intro h; simp [fanCombine, h]
+  · intro h
+    have : ¬ t1 < st2.clock := Rat.not_lt.mpr (Rat.le_of_lt h)
+    simp [fanCombine, h, this]
+
+/-- (vi) the instants, like the whole outcome, do not depend on the fuel -/
+theorem instants_fuel_independent (env : Env) (n m : Nat) (h : n ≤ m) (asl input ctx : Json)
+    (hs : (run env n asl input ctx).status ≠ S "FUEL") :
+    (run env m asl input ctx).times = (run env n asl input ctx).times ∧
+    (run env m asl input ctx).endTime = (run env n asl input ctx).endTime ∧
+    (run env m asl input ctx).history = (run env n asl input ctx).history := by
+  rw [Asl.run_fuel_independent env n m h asl input ctx hs]
+  exact ⟨rfl, rfl, rfl⟩
+
 /-! non-vacuity -/
 example : (TimerSt.run [.set 1 100, .set 2 50, .clear 2, .advance 60, .set 1 200, .advance 150, .advance 250]).fired
     = [(1, 200)] := by decide
 example : fireAt 5000 7000 = 7000 ∧ fireAt 5000 1000 = 5000 := by decide
+
+/-! the timed semantics, concretely -/
+private def k (s : String) : Str := s.toList
+private def arnF : Str := k "arn:aws:rpcmessage:local::function:f"
+/-- the worker takes 1500 ms for its first answer, 10 ms afterwards -/
+private def envT : Env :=
+  { tmpl := Lite.tmpl, choose := Lite.choose, task := fun _ _ _ => .obj [(k "ok", .num 1)],
+    delay := fun _ _ n => if n = 0 then some 1500 else some 10 }
+private def inT : Json := .obj [(k "a", .num 1)]
+private def waitSt (secs : Int) (next : Option String) : Json :=
+  .obj ([(k "Type", .str (k "Wait")), (k "Seconds", .num secs)] ++
+    (match next with | some n => [(k "Next", .str (k n))] | none => [(k "End", .bool true)]))
+/-- Wait 2 s, then a Pass state: entered at 0, over at 2000 ms exactly (hypotheses of `wait_state_not_early`,
+`wait_exit_instant`, `wait_seconds_target`) -/
+private def aslW : Json := .obj [(k "StartAt", .str (k "W")), (k "States", .obj [
+  (k "W", waitSt 2 (some "P")), (k "P", .obj [(k "Type", .str (k "Pass")), (k "End", .bool true)])])]
+example : (run envT 20 aslW inT (.obj [])).times = [0, 0, 2000, 2000, 2000, 2000] ∧
+    (run envT 20 aslW inT (.obj [])).endTime = 2000 ∧
+    (run envT 20 aslW inT (.obj [])).history.length = 6 := by decide +kernel
+example : stateType (waitSt 2 none) = S "Wait" ∧ fld (waitSt 2 none) "Seconds" = some (.num 2) ∧
+    isTrue (fld (waitSt 2 none) "End") = true := by decide
+/-- a Task with TimeoutSeconds 1 and a Retrier (interval 2 s): the first answer would take 1500 ms — timed out at
+1000 ms exactly, re-run at 3000 ms, answered at 3010 ms (hypotheses of `task_timeout_exact`, `retry_delay_exact`,
+`task_reply_instant`) -/
+private def tT : Json := .obj [
+  (k "Type", .str (k "Task")), (k "Resource", .str arnF), (k "TimeoutSeconds", .num 1), (k "End", .bool true),
+  (k "Retry", .arr [.obj [(k "ErrorEquals", .arr [.str (k "States.Timeout")]), (k "IntervalSeconds", .num 2)]])]
+private def aslT : Json := .obj [(k "StartAt", .str (k "T")), (k "States", .obj [(k "T", tT)])]
+example : (run envT 20 aslT inT (.obj [])).history =
+    [.execStarted inT, .entered (k "Task") (k "T") inT, .lambdaScheduled inT arnF, .lambdaTimedOut,
+     .lambdaScheduled inT arnF, .lambdaSucceeded (.obj [(k "ok", .num 1)]),
+     .exited (k "Task") (k "T") (.obj [(k "ok", .num 1)]), .execSucceeded (.obj [(k "ok", .num 1)])] ∧
+    (run envT 20 aslT inT (.obj [])).times = [0, 0, 0, 1000, 3000, 3010, 3010, 3010] ∧
+    (run envT 20 aslT inT (.obj [])).requests = 2 := by decide +kernel
+example : fld tT "TimeoutSeconds" = some (.num 1) ∧ ¬ ((0 : Rat) + 1500 < 0 + (1 : Int) * 1000) ∧
+    (0 : Rat) + 10 < 3000 + (1 : Int) * 1000 := by decide +kernel
+example : ∃ d, decideError ((listOf (fld tT "Retry")).map retrierOf) ((listOf (fld tT "Catch")).map catcherOf)
+    (S "States.Timeout") 0 = .retry d 1 := ⟨_, rfl⟩
+/-- a Parallel state whose branches wait 1 s and 3 s: the join is at 3000 ms (`join_time_is_max`) -/
+private def br (name : String) (st : Json) : Json :=
+  .obj [(k "StartAt", .str (k name)), (k "States", .obj [(k name, st)])]
+private def aslP : Json := .obj [(k "StartAt", .str (k "P")), (k "States", .obj [
+  (k "P", .obj [(k "Type", .str (k "Parallel")), (k "End", .bool true),
+    (k "Branches", .arr [br "A" (waitSt 1 none), br "B" (waitSt 3 none)])])])]
+example : (run envT 20 aslP inT (.obj [])).endTime = 3000 ∧
+    (run envT 20 aslP inT (.obj [])).times = [0, 0, 0, 0, 1000, 0, 3000, 3000, 3000] := by decide +kernel
+/-- … and when both branches fail, after 2 s with E1 and after 1 s with E2, the Parallel state fails at 1000 ms
+with E2: the earliest failure, not the lowest index (`earliest_failure_wins`); several failed (`multiFail`) but not at
+the same instant (`tieFail` is false) -/
+private def failAfter (w f e : String) (secs : Int) : Json :=
+  .obj [(k "StartAt", .str (k w)), (k "States", .obj [
+    (k w, waitSt secs (some f)), (k f, .obj [(k "Type", .str (k "Fail")), (k "Error", .str (k e))])])]
+private def aslE : Json := .obj [(k "StartAt", .str (k "P")), (k "States", .obj [
+  (k "P", .obj [(k "Type", .str (k "Parallel")), (k "End", .bool true),
+    (k "Branches", .arr [failAfter "W1" "F1" "E1" 2, failAfter "W2" "F2" "E2" 1])])])]
+example : (run envT 20 aslE inT (.obj [])).error = some (k "E2") ∧ (run envT 20 aslE inT (.obj [])).endTime = 1000 ∧
+    (run envT 20 aslE inT (.obj [])).multiFail = true ∧ (run envT 20 aslE inT (.obj [])).tieFail = false ∧
+    (run envT 20 aslE inT (.obj [])).fanFail = true := by
+  decide +kernel
+/-- a Map over three items with MaxConcurrency 2, each iteration waiting 1 s: two batches, over at 2000 ms -/
+private def aslM : Json := .obj [(k "StartAt", .str (k "M")), (k "States", .obj [
+  (k "M", .obj [(k "Type", .str (k "Map")), (k "End", .bool true), (k "ItemsPath", .str (k "$.xs")),
+    (k "MaxConcurrency", .num 2), (k "Iterator", br "W" (waitSt 1 none))])])]
+example : (run envT 30 aslM (.obj [(k "xs", .arr [.num 5, .num 6, .num 7])]) (.obj [(k "State", .obj [])])).endTime = 2000 ∧
+    (run envT 30 aslM (.obj [(k "xs", .arr [.num 5, .num 6, .num 7])]) (.obj [(k "State", .obj [])])).status = S "SUCCEEDED" := by
+  decide +kernel
+/-- hypothesis of `instants_fuel_independent` -/
+example : (run envT 20 aslT inT (.obj [])).status ≠ S "FUEL" := by decide +kernel
 
 end Asl.C08
